@@ -581,10 +581,15 @@ def exec_history(trace: Dict[str, Any]) -> Dict[str, Any]:
                 with L.C7NContext(filter=flt):
                     return prgm.evaluate(activation)
 
-            # An abort *inside* the context manager's own __enter__/__exit__ is not "the
-            # evaluation failing": no code can promise cleanup when the cleanup itself is killed.
+            # "Also when the evaluation fails": the abort is injected at an arbitrary line *inside
+            # the evaluation* (a frame of celpy/evaluation.py or of transpiled code is on the
+            # stack) or inside a helper called directly.  An abort inside the code that installs /
+            # clears the context is not the evaluation failing -- no code can promise cleanup when
+            # the cleanup itself is killed -- so such a point is skipped (the abort fires later).
             tracer = LineTracer(abort_at=op.get("abort"),
-                                no_abort_in=("C7NContext.__enter__", "C7NContext.__exit__"))
+                                no_abort_in=("C7NContext.__enter__", "C7NContext.__exit__"),
+                                abort_only_under=(("celpy/evaluation.py", "<string>")
+                                                  if mode != "direct" else ()))
             try:
                 with tracer:
                     fp, _ = kit.outcome(run)
